@@ -48,16 +48,16 @@ def ref_cmp(state, op, goal, tol):
     return state > goal
 
 
-def ref_clause(cl, i, k, vals):
-    """cl: clause dict; k: tick; vals(k) -> current state value of framer i"""
+def ref_clause(cl, i, k, vals, since=0):
+    """cl: clause dict; k: tick; vals(k) -> current state value of framer i; since: tick at which the framer was entered"""
     kind = cl["kind"]
     if kind == "bool":
         r = bool(vals(k))
     else:
         if kind == "elapsed":
-            st = float(k * TICK)
+            st = float((k - since) * TICK)
         elif kind == "recurred":
-            st = k
+            st = k - since
         else:
             st = vals(k)
         r = ref_cmp(st, cl["op"], cl["goal"], cl.get("tol"))
@@ -175,7 +175,14 @@ def build_batch(batch):
         else:
             frames = [P.frame("a", [P.rec("q%d.a" % i, "precur"), P.go("b", needs)]),
                       P.frame("b", [P.rec("q%d.b" % i, "enter")])]
-        if mode.startswith("clone"):
+        if mode == "twin-go":
+            # two clones of one moot framer, the second one entered `delay` ticks later: each evaluates the condition on
+            # its own clocks (and the shares they both see)
+            framers.append(P.framer("mq%d" % i, frames, sched="moot"))
+            framers.append(P.framer("q%d" % i, [P.frame("h", [{"v": "aux", "aux": "mq%d" % i, "as": "k"}])]))
+            framers.append(P.framer("q%dw" % i, [P.frame("w0", [P.go("h", [P.cmp("recurred", ">=", c["delay"])])]),
+                                                  P.frame("h", [{"v": "aux", "aux": "mq%d" % i, "as": "k"}])]))
+        elif mode.startswith("clone"):
             # ... and the same frames in a moot framer that runs as a named clone under a host framer
             framers.append(P.framer("mq%d" % i, frames, sched="moot"))
             framers.append(P.framer("q%d" % i, [P.frame("h", [{"v": "aux", "aux": "mq%d" % i, "as": "k"}])]))
@@ -187,11 +194,11 @@ def build_batch(batch):
     return P.program([P.house("h", [drv] + framers, inits=inits)], period="0.125")
 
 
-def expected_tick(c, i):
+def expected_tick(c, i, since=0):
     def vals(k):
         return c["v1"] if (c["v1"] is not None and k >= CH) else c["v0"]
-    for k in range(1, K + 1):
-        if all(ref_clause(cl, i, k, vals) for cl in c["clauses"]):
+    for k in range(since + 1, K + 1):
+        if all(ref_clause(cl, i, k, vals, since) for cl in c["clauses"]):
             return k
     return None
 
@@ -212,14 +219,30 @@ def worker(ctx, job):
             continue
         entered = {}
         evaluated = set()
+        byframer = {}
         for e in res.trace:
             ctx.event()
             if e["tag"].endswith(".b") and e["ctx"] == "enter":
                 entered.setdefault(e["tag"][:-2], e["tick"])
+                byframer.setdefault(e["framer"], e["tick"])
             if e["tag"].endswith(".a"):
                 evaluated.add(e["tag"][:-2])
         for i, c in enumerate(batch):
             name = "q%d" % i
+            if c.get("mode") == "twin-go":
+                cond = P.render_needs([clause_need(cl, i) for cl in c["clauses"]])
+                ctx.case([cond, c["v0"], c["v1"], c["g"], "twin", c["delay"]], nontrivial=name in evaluated)
+                ctx.hit("mode_twin-go")
+                for who, since in (("q%d_k" % i, 0), ("q%dw_k" % i, c["delay"])):
+                    exp, got = expected_tick(c, i, since), byframer.get(who)
+                    if since and exp is not None:
+                        ctx.hit("later_twin_expected_true")
+                    ctx.check(got == exp, "comparison-outcome/twin-clone/%s" % ("taken-but-false" if (got is not None and (exp is None or got < exp))
+                                                                                 else "not-taken-but-true"),
+                              "`go b if %s` in clone %s (entered at tick %d) with state %r (%r from tick %d): transition at tick %s, "
+                              "written comparison on its own clocks says %s" % (cond, who, since, c["v0"], c["v1"], CH, got, exp),
+                              {"condition": cond, "case": c, "clone": who, "entered_at": since, "observed_tick": got, "expected_tick": exp})
+                continue
             cond = P.render_needs([clause_need(cl, i) for cl in c["clauses"]])
             exp = expected_tick(c, i)
             got = entered.get(name)
@@ -261,6 +284,13 @@ def run(ctx):
         c["mode"] = modes[j % len(modes)] if not ctx.quick else modes[(j + ctx.seed) % len(modes)]
     if not ctx.quick:       # thorough: every grid condition in every mode
         allc = [dict(c, mode=m) for c in grid for m in ("go", "let", "clone-go", "clone-let")] + rnd
+    # the condition inside two clones of one moot framer entered at different ticks (conditions with a clock clause)
+    import random as _random
+    r2 = _random.Random(ctx.seed * 7919 + 17)
+    tw = [c for c in gen_random(r2, ctx.pick(1500, 30000)) if any(cl["kind"] in ("elapsed", "recurred") for cl in c["clauses"])]
+    allc = allc + [dict(c, mode="twin-go", delay=r2.choice([1, 2, 3])) for c in tw]
+    ctx.floor("mode_twin-go", 300)
+    ctx.floor("later_twin_expected_true", 100)
     B = 50
     batches = [allc[i:i + B] for i in range(0, len(allc), B)]
     n = 16
